@@ -139,3 +139,60 @@ func Factors(t *rapid.T, words int, fold uint64, label string) (x, y *big.Int, k
 	}
 	return x, pow(label + ".py"), "pow-mul"
 }
+
+// Boundary draws a value below 2^(64*words) that sits next to a limb boundary or a power of
+// two — the inputs on which add-c / subtract-c chains of a final reduction carry or borrow across
+// several limbs: t*2^(64j) + d (upper limbs t limb-structured, |d| <= c+2 or <= 40), 2^k - d and
+// 2^k + d for every k, and m*p + d for the small multiples of the modulus that fit. c is the
+// constant the reduction adds (19 for 2^255-19); extra, if non-nil, is a second offset that is
+// added or subtracted in a quarter of the draws (2^224 for 2^448-2^224-1).
+func Boundary(t *rapid.T, words int, c uint64, p, extra *big.Int, label string) (*big.Int, string) {
+	width := uint(64 * words)
+	max := new(big.Int).Lsh(big.NewInt(1), width)
+	small := func(l string) *big.Int {
+		lim := int(c) + 2
+		if pick(t, 2, l+".wide") == 0 {
+			lim = 40
+		}
+		return big.NewInt(int64(pick(t, 2*lim+1, l+".d") - lim))
+	}
+	var v *big.Int
+	var cls string
+	switch pick(t, 4, label+".bk") {
+	case 0:
+		j := uint(1 + pick(t, words, label+".j"))
+		v = vlib.Limbs(t, words, c, label+".hi")
+		v.Rsh(v, 64*j)
+		v.Lsh(v, 64*j)
+		v.Add(v, small(label))
+		cls = "t*2^(64j)+d"
+	case 1:
+		k := uint(1 + pick(t, int(width), label+".k"))
+		v = new(big.Int).Lsh(big.NewInt(1), k)
+		d := small(label)
+		v.Sub(v, d.Abs(d))
+		cls = "2^k-d"
+	case 2:
+		k := uint(1 + pick(t, int(width), label+".k"))
+		v = new(big.Int).Lsh(big.NewInt(1), k)
+		d := small(label)
+		v.Add(v, d.Abs(d))
+		cls = "2^k+d"
+	default:
+		mmax := new(big.Int).Div(max, p).Int64()
+		m := int64(pick(t, int(mmax)+1, label+".m"))
+		v = new(big.Int).Mul(p, big.NewInt(m))
+		v.Add(v, small(label))
+		cls = "m*p+d"
+	}
+	if extra != nil && pick(t, 4, label+".ex") == 0 {
+		if pick(t, 2, label+".exs") == 0 {
+			v.Add(v, extra)
+		} else {
+			v.Sub(v, extra)
+		}
+		cls += "+-extra"
+	}
+	v.Mod(v, max)
+	return v, cls
+}
